@@ -19,6 +19,7 @@ type DemandSpec struct {
 	Describe   bool // a describe request D1 next to the read request R1
 	Late       bool // a later reader R2 arrives after the source went away / after the timeout
 	Close      bool // the manager is shut down concurrently with the first phase instead of at the end
+	MoreReaders int // additional readers requesting at the start (R3, R4, ...)
 }
 
 func (p *PM) readTask(id string, done chan struct{}) {
@@ -53,6 +54,13 @@ func DemandBody(c *conf.Conf, sp DemandSpec) func() {
 		d1 := make(chan struct{})
 		src := make(chan struct{})
 		vsched.Go(func() { pm.readTask("R1", r1) })
+		var more []chan struct{}
+		for i := 0; i < sp.MoreReaders; i++ {
+			d := make(chan struct{})
+			more = append(more, d)
+			id := fmt.Sprintf("R%d", 3+i)
+			vsched.Go(func() { pm.readTask(id, d) })
+		}
 		if sp.Describe {
 			vsched.Go(func() {
 				defer vsched.Close(d1)
@@ -131,6 +139,9 @@ func DemandBody(c *conf.Conf, sp DemandSpec) func() {
 		vsched.Log("closed")
 		vsched.Recv(r1)
 		vsched.Recv(r2)
+		for _, d := range more {
+			vsched.Recv(d)
+		}
 		vsched.Log("end")
 	}
 }
@@ -147,6 +158,8 @@ func CheckDemand(o *vsched.Outcome) (string, string) {
 	requested := map[string]int{}
 	answered := map[string]int{}
 	closedAt := -1
+	attached := map[string]bool{} // reader sessions attached to the stream for sure
+	shuttingDown := false
 	for i, l := range o.Trace {
 		w := strings.Fields(l)
 		switch {
@@ -157,13 +170,27 @@ func CheckDemand(o *vsched.Outcome) (string, string) {
 				return "ok-without-stream", w[0] + " got a success response without a stream | " + tr
 			}
 			answered[w[0]]++
+			if w[2] == "ok" && strings.HasPrefix(w[0], "R") {
+				attached[w[0]] = true
+			}
 			if closedAt >= 0 && w[2] == "ok" && requested[w[0]] > 0 && i > closedAt+1 {
 				// answered with a stream after the manager was closed: the stream cannot be live
 				return "stream-after-close", w[0] + " was given a stream after shutdown | " + tr
 			}
 		case w[0] == "closed":
 			closedAt = i
+		case w[0] == "closing":
+			shuttingDown = true
+		case w[0] == "close" || w[0] == "detaching":
+			delete(attached, w[1])
+		case w[0] == "hook" && len(w) >= 4 && w[2] == "runOnDemand" && w[3] == "stopped":
+			// "stop after the close delay once no reader remains": never while a reader is attached
+			// (path destruction at shutdown stops the command before it tears the readers down: excluded)
+			if len(attached) > 0 && !shuttingDown && closedAt < 0 {
+				return "demand-stopped-with-reader", fmt.Sprintf("the runOnDemand command was stopped while reader(s) %v were attached | %s", keys(attached), tr)
+			}
 		case w[0] == "idle":
+			shuttingDown = true // the manager is closed right after this point
 			// quiescent, every timer has fired: no request may be on hold
 			if !strings.Contains(l, "hold=0/0") {
 				who := []string{}
